@@ -17,7 +17,12 @@ META = dict(
     'n_eff = Kish ESS, V_i = V_bound n_i/n_sample <= V_bound - by the '
     '"linear twin" translation (exp/log/logsumexp -> products/sums of '
     'positive reals) discharged with z3 nlsat. Algebraically equal '
-    'refactors pass, any other change of an estimator fails.',
+    'refactors pass, any other change of an estimator fails. (3) Range: '
+    'every argument n_eff hands to np.exp is shown to be <= 709 (the '
+    'float64 overflow threshold) for every likelihood scale - the maximum is '
+    'subtracted first; a counterexample is a likelihood scale at which the '
+    'real n_eff is inf/nan, replayed against a reference computed with '
+    'unbounded exponents.',
     bounds=dict(accessor_states='2 shells x <=2 samples (quick), 3 shells / '
                 '3 samples for log_z, weights, volumes (thorough); eta: 1 '
                 'shell x 2 or 2 shells x 1 (nlsat does not finish beyond)',
@@ -29,7 +34,9 @@ META = dict(
     stubs=common.SAMPLER_STUBS + [
         'exp/log/logsumexp uninterpreted in the main pool, expanded to real '
         'arithmetic in the nlsat pool'],
-    outside=['float64 rounding (mathematical reals)', 'larger states',
+    outside=['float64 rounding (mathematical reals; overflow of exp in n_eff '
+             'is covered by the range obligation, underflow and the other '
+             'estimators are not)', 'larger states',
              'eta for more than two samples over two shells'],
     assumptions=['induction principle over operations'])
 
